@@ -38,7 +38,7 @@ REQUIRED_THEOREMS = ["queue_abs_invariant", "insert_commutes", "pop_commutes", "
                      "wait_le_every_deadline", "m_schedule_all", "m_pending_on_schedule", "m_due_fires", "m_single_outcome",
                      "m_never_sent_again", "m_pdu_and_timeout_fixed", "m_giveup_after_all_retransmissions",
                      "m_at_most_max_retransmissions", "sleep_returned_wait_ok", "punctual_of_clock",
-                     "pdu_and_timeout_never_modified", "pdu_and_timeout_never_modified_step",
+                     "pdu_and_timeout_never_modified", "pdu_and_timeout_never_modified_step", "sim_gate_order_witness",
                      "m_refines_timer_partial", "m_refines_timer_from_partial", "m_schedule_via_timer_partial",
                      "m_single_outcome_via_timer_partial"]
 RULE = ("scenario lines for harness/msg.c (one real client context, 1-3 UDP sessions sharing the send queue, virtual clock, "
